@@ -96,6 +96,15 @@ Theorem C07_whole_run_refines_timer_table (c : kcfg F) fuel ps0 :
   after (t_next A cfg) t0 (i0 ++ items) = mkT (s_pending (k_h s')) (s_nextid (k_h s')) None.
 Proof. exact (whole_run_accepted A cfg react c fuel ps0). Qed.
 
+(** The same for ANY way of driving: every interleaving of step_simulation() calls and requests made
+    from outside the callbacks (before the first step, between two steps) through a node's provider. *)
+Theorem C07_any_driving_refines_timer_table (c : kcfg F) ops ps0 :
+  let '(s0, i0) := sim_start A cfg ps0 in
+  let '(s', items) := sim_drive A cfg react c ops s0 in
+  accept (t_next A cfg) t_ok t0 (i0 ++ items) /\
+  after (t_next A cfg) t0 (i0 ++ items) = mkT (s_pending (k_h s')) (s_nextid (k_h s')) None.
+Proof. exact (whole_drive_accepted A cfg react c ops ps0). Qed.
+
 (** ONLY IF: in an accepted trace a timer callback is the very next thing after the execution of
     a timer event of the same node and name whose identifier is in the table at that moment, and
     it reports that event's time. *)
@@ -173,6 +182,7 @@ Print Assumptions C07_each_event_once.
 Print Assumptions C07_identifiers_never_reused.
 Print Assumptions C07_identifiers_never_reused_init.
 Print Assumptions C07_whole_run_refines_timer_table.
+Print Assumptions C07_any_driving_refines_timer_table.
 Print Assumptions C07_timer_callback_only_from_pending_event.
 Print Assumptions C07_pending_timer_event_fires.
 Print Assumptions C07_fired_never_again.
